@@ -8,6 +8,12 @@ if m.startswith("r2:"):  # second round: /tmp/seed/out2/<id>/m1,m2 are kept as m
     m = m[3:]
     src = f"/tmp/seed/out2/{pid}"
     dm = {"m1": "m3", "m2": "m4"}[m]
+rnd = 2 if dm in ("m3", "m4") else 1
+if m.startswith("r3:"):  # third round: /tmp/seed3/out/<id>/m1,m2 are kept as m5,m6
+    m = m[3:]
+    src = f"/tmp/seed3/out/{pid}"
+    dm = {"m1": "m5", "m2": "m6"}[m]
+    rnd = 3
 dst = f"/verif/seeded/{pid}/{dm}"
 os.makedirs(dst, exist_ok=True)
 shutil.copy(f"{src}/{m}.diff", f"{dst}/patch.diff")
@@ -17,7 +23,7 @@ if os.path.exists(f"{src}/{m}_demo_test.go"):
 files = sorted(set(re.findall(r"^\+\+\+ b/(\S+)", open(f"{dst}/patch.diff").read(), re.M)))
 meta_p = f"{dst}/meta.json"
 meta = json.load(open(meta_p)) if os.path.exists(meta_p) else {}
-meta.update({"property": pid, "seed": dm, "round": 2 if dm in ("m3", "m4") else 1, "files": files,
+meta.update({"property": pid, "seed": dm, "round": rnd, "files": files,
   "origin": "independent sub-agent given only the property text and a scratch worktree of /repo (nothing from /verif)",
   "confirmed": {"applies_builds": True, "pinned_suite_170_of_170": True, "reviewed_by_hand": True},
   "how_to_test": f"git -C /repo apply /verif/seeded/{pid}/{dm}/patch.diff; /verif/bin/vcheck {pid} --tier quick; git -C /repo checkout -- .   (or /verif/tools/seedtest.sh {pid} /verif/seeded/{pid}/{dm}/patch.diff)"})
